@@ -24,7 +24,20 @@ if sys.path[0] != REPO:
 
 warnings.filterwarnings("ignore", category=DeprecationWarning)
 
-import eliot  # noqa: E402
+import threading as _threading  # noqa: E402
+from . import thr as _thr  # noqa: E402
+
+# Locks that eliot creates while it is imported (module level, class bodies, decorators) must be
+# schedulable by the THR engine like the ones it creates later; outside a scheduled execution a
+# HybridLock is an ordinary lock.
+_REAL_LOCK = _threading.Lock
+_threading.Lock = _thr.HybridLock
+try:
+    import eliot  # noqa: E402
+    import eliot._output  # noqa: E402,F401
+    import eliot._action  # noqa: E402,F401
+finally:
+    _threading.Lock = _REAL_LOCK
 import eliot._action as _action  # noqa: E402
 import eliot._output as _output  # noqa: E402
 import eliot._errors as _errors  # noqa: E402
